@@ -93,11 +93,20 @@ pub fn make_req(
     chunked: Option<Vec<usize>>,
 ) -> SinkReq {
     let (body, digest, plen, inv, ct) = make_body(r, kind, nonce, len);
-    let headers = vec![
+    let mut headers = vec![
         hdr("host", "sim"),
         hdr("x-sim", &format!("{};0;0;0;0", nonce)),
         hdr("content-type", &ct),
     ];
+    // Both framing headers at once, Content-Length first: a server may
+    // reject the request or go by Transfer-Encoding alone (RFC 9112 6.1),
+    // hyper does the latter and leaves the Content-Length header in place.
+    // The limit applies to the body actually received.
+    let decoy = chunked.is_some() && r.chance(1, 8);
+    if decoy {
+        let fake = *r.pick(&[0usize, 1, limit / 2, limit]);
+        headers.push(hdr("content-length", &fake.to_string()));
+    }
     let fr = match &chunked {
         Some(s) => BodyFraming::Chunked { sizes: s.clone(), ext: nonce % 3 == 0, trailer: nonce % 5 == 0 },
         None => BodyFraming::Length,
@@ -137,6 +146,7 @@ pub fn make_req(
                 len,
                 digest,
                 may_be_invalid: inv,
+                may_reject: decoy,
                 streaming: kind == "stream" || kind == "mp",
                 payload_len: plen,
                 chunk_at_limit,
@@ -269,7 +279,7 @@ pub fn gen_random(seed: u64, idx: u64) -> Plan {
     Plan {
         property: "C11".into(),
         seed: mix(seed, idx),
-        server: ServerPlan { mode, body_limit: default, api: ApiKind::Sink, rt_override: rt },
+        server: ServerPlan { mode, body_limit: default, api: ApiKind::Sink, rt_override: rt, tls: false },
         conns,
         shutdown: None,
         accept_errs: vec![],
@@ -317,6 +327,7 @@ impl Scenario for C11 {
             "follower_after_oversize_checked",
             "midbody_disconnect",
             "h2_body_limit_checked",
+            "cl_and_te_framing",
         ]
     }
 
@@ -371,7 +382,7 @@ impl Scenario for C11 {
             let p = Plan {
                 property: "C11".into(),
                 seed: mix(seed, idx),
-                server: ServerPlan { mode, body_limit: default, api: ApiKind::Sink, rt_override: rt },
+                server: ServerPlan { mode, body_limit: default, api: ApiKind::Sink, rt_override: rt, tls: false },
                 conns: vec![c],
                 shutdown: None,
                 accept_errs: vec![],
@@ -448,7 +459,7 @@ pub fn check_c11(
         }
         let mut prior_oversize = false;
         for (k, rq) in cp.reqs.iter().enumerate() {
-            let Expect::Sink { ep, limit, len, digest, may_be_invalid, streaming, payload_len, chunk_at_limit, max_chunk } = &rq.expect else {
+            let Expect::Sink { ep, limit, len, digest, may_be_invalid, may_reject, streaming, payload_len, chunk_at_limit, max_chunk } = &rq.expect else {
                 continue;
             };
             let is_mp = ep.starts_with("mp/");
@@ -556,8 +567,11 @@ pub fn check_c11(
                 }
             } else {
                 let ok2xx = (200..300).contains(&st);
+                if *may_reject {
+                    probes.push("cl_and_te_framing");
+                }
                 if !ok2xx {
-                    if *may_be_invalid && (400..500).contains(&st) {
+                    if (*may_be_invalid || *may_reject) && (400..500).contains(&st) {
                         continue;
                     }
                     prior_oversize = true; // refused: connection may be closed
